@@ -94,6 +94,8 @@ def arg_text(arg, spec=None):
     p = (prefix_of(spec, arg['sheet']) if spec is not None else f"{arg['sheet']}!") if arg.get('sheet') else ''
     if arg['t'] == 'num':
         return str(arg['v'])
+    if arg['t'] == 'word':
+        return '"' + arg['v'] + '"'
     if arg['t'] == 'cmp':
         return f"{p}{COLS[arg['c']]}{arg['r'] + 1}{arg['op']}{arg['v']}"
     if arg['t'] == 'cell':
@@ -114,6 +116,10 @@ def fold(spec, fn, args):
     for a in args:
         if a['t'] == 'num':
             scalars.append(a['v'])
+        elif a['t'] == 'word':
+            # a word among the arguments of COUNT is no number, whatever python's float() makes of it (nan, inf, 1_0)
+            if fn != 'COUNT':
+                raise Skip('text scalar outside COUNT')
         elif a['t'] == 'cmp':
             v = content(spec, (a.get('sheet') or 'S', a['c'], a['r']))
             if kind(v) not in ('num', 'blank'):
@@ -156,7 +162,7 @@ def fold(spec, fn, args):
 
 
 def stats(spec, args):
-    cells = [content(spec, co) for a in args if a['t'] not in ('num', 'cmp') for co in area_cells(spec, a)]
+    cells = [content(spec, co) for a in args if a['t'] not in ('num', 'cmp', 'word') for co in area_cells(spec, a)]
     ks = [kind(v) for v in cells]
     n_areas = sum(1 for a in args if a['t'] in ('area', 'col'))
     big = any(a['t'] == 'col' and len(spec['grid']) >= 2 and a['c2'] > a['c'] or
@@ -203,15 +209,15 @@ def build(spec):
             on.append('S')
     for fs in spec['formulas']:
         todo.append((fs, 'S'))
-        if spec.get('grid2') and not spec.get('overrides') and all(not a.get('sheet') and a['t'] in ('area', 'cell', 'col', 'num') for a in fs['args']) \
-                and any(a['t'] != 'num' for a in fs['args']):
+        if spec.get('grid2') and not spec.get('overrides') and all(not a.get('sheet') and a['t'] in ('area', 'cell', 'col', 'num', 'word') for a in fs['args']) \
+                and any(a['t'] not in ('num', 'word') for a in fs['args']):
             # the same text on the second sheet: unqualified references mean the sheet of the formula
             todo.append((fs, 'T'))
     for fs, home in todo:
         fn, args = fs['fn'], fs['args']
         n0 = len(qs)
         try:
-            exp = fold(spec, fn, args if home == 'S' else [{**a, 'sheet': 'T'} if a['t'] != 'num' else a for a in args])
+            exp = fold(spec, fn, args if home == 'S' else [{**a, 'sheet': 'T'} if a['t'] not in ('num', 'word') else a for a in args])
         except Skip:
             continue
         call = f"{fn}({','.join(arg_text(a, spec) for a in args)})"
@@ -254,6 +260,8 @@ def strategy():
     num = st.one_of(st.integers(-50, 50), st.integers(-200, 200).map(lambda k: k / 4).filter(lambda x: x != int(x)),
                     st.integers(1, 9))
     base = st.one_of(num, num, num, st.sampled_from(WORDS), st.sampled_from(['12', '3.5', '007']), st.booleans(),
+                     # texts that consist of blanks only are texts, not blank cells; words that python's float() accepts are words
+                     st.sampled_from([' ', '   ', ' \t', '\xa0', 'nan', 'inf', '1_0']),
                      st.none(), st.none(), st.just('=""'))
     with_dates = st.one_of(base, st.sampled_from([{'$dt': '2024-02-29T00:00:00'}, {'$dt': '2020-01-01T00:00:00'}]))
     boolnum = st.one_of(st.booleans(), st.integers(-3, 3), st.sampled_from([0, 1, 0.5]))
@@ -321,7 +329,9 @@ def strategy():
             args = []
             for _ in range(nargs):
                 k = draw(st.integers(0, 9))
-                if k == 0 and fn != 'COUNTBLANK':
+                if k == 2 and fn == 'COUNT':
+                    args.append({'t': 'word', 'v': draw(st.sampled_from(['nan', 'inf', 'Infinity', '-inf', 'NaN', '1_0', 'abc', 'x', 'e5', '1e', '0x10']))})
+                elif k == 0 and fn != 'COUNTBLANK':
                     args.append({'t': 'num', 'v': draw(st.one_of(st.integers(0, 20), st.sampled_from([2.5, 0.25])))})
                 elif k == 1 and fn in ('AND', 'OR'):
                     args.append({'t': 'cmp', 'c': draw(st.integers(0, ncols - 1)), 'r': draw(st.integers(0, nrows - 1)),
